@@ -321,7 +321,7 @@ func c05Run(c c05Case) (res c05Result, err error) {
 		cancel()
 		return res, err
 	}
-	deadline := time.Now().Add(30 * time.Second)
+	deadline := time.Now().Add(120 * time.Second)
 	visible := func() uint64 {
 		mu.Lock()
 		defer mu.Unlock()
@@ -362,7 +362,7 @@ func c05Run(c c05Case) (res c05Result, err error) {
 			if parked {
 				break // idle and different: the oracle below reports what is missing
 			}
-			res.inconcl = "node did not reach quiescence within 30s"
+			res.inconcl = "node did not reach quiescence within 120s"
 			break
 		}
 		time.Sleep(500 * time.Microsecond)
@@ -370,8 +370,8 @@ func c05Run(c c05Case) (res c05Result, err error) {
 	cancel()
 	select {
 	case <-done:
-	case <-time.After(10 * time.Second):
-		res.inconcl = "driver did not stop within 10s of cancellation"
+	case <-time.After(90 * time.Second):
+		res.inconcl = "driver did not stop within 90s of cancellation"
 	}
 	res.calls = rec.snapshot()
 	res.visibleTip = visible()
